@@ -99,6 +99,16 @@ def pick_quick(cfgs, seed, meta):
     for c in cfgs:
         key = (c["dtype"], c["layout"])
         if key == ("float64", "C"):
+            slow = c["f"] in ("proximity", "allocation", "direction", "generate_terrain", "viewshed")   # >= 1 s per call
+            # DEGENERATE VALUES (every cell NaN / one constant / all zero) and DEGENERATE SHAPES (1xN, Nx1, 2x2, 1x1) for every
+            # function on the float64/C specialisation (no extra compilation); a function that refuses one is outside its
+            # domain there (fam "degen": no drift)
+            for dg, bks in (("allnan", ("numpy", "dask")), ("const", ("numpy",)), ("zero", ("dask",))):
+                if c["backend"] in bks and not (slow and dg != "allnan"):
+                    sel.append(dict(c, degen=dg, attrs_family=2))
+            for hw_, bks in (([1, 7], ("numpy", "dask")), ([6, 1], ("numpy", "dask")), ([2, 2], ("dask",)), ([1, 1], ("numpy",))):
+                if c["backend"] in bks and not (slow and hw_ != [1, 7]):
+                    sel.append(dict(c, hw=hw_, finite=True, attrs_family=5))
             # value family "non-finite": NaN, +inf and -inf cells in EVERY raster input of EVERY function (same JIT
             # specialisations as the all-finite raster: no extra compilation); `res` is a string there (attrs family 4 / 1)
             sel.append(dict(c, nonfinite=True, single_chunk=(c["backend"] == "dask"),
@@ -108,8 +118,8 @@ def pick_quick(cfgs, seed, meta):
             # attrs family: `res` a scalar on NumPy, a pair of NumPy scalars on Dask
             sel.append(dict(c, finite=True, single_chunk=(c["backend"] == "dask"),
                             attrs_family=1 if c["backend"] == "numpy" else 5))
-        elif key == ("int32", "C") and ((c["backend"] == "numpy" and c["f"] not in same_code) or c["f"] not in heavy):
-            sel.append(dict(c, attrs_family=3 if c["backend"] == "numpy" else 4))      # `res` a 3-tuple / a string
+        elif key == ("int32", "C") and c["backend"] == "numpy" and c["f"] not in same_code:
+            sel.append(dict(c, attrs_family=3))      # `res` a 3-tuple; int rasters on Dask: thorough tier
         elif key == ("float32", "C") and c["f"] not in heavy:
             # float32 on Dask too: dask's astype('f4') returns the array itself there; `res` a list
             sel.append(dict(c, attrs_family=2))
@@ -125,7 +135,8 @@ def config_jobs(cfgs, variants=None):
                      "calls": [{"f": c["f"], "variant": (variants or {}).get(c["f"], 0) if not isinstance(variants, int) else variants,
                                 "args": None, "dtype": c["dtype"], "layout": c["layout"], "backend": c["backend"],
                                 "finite": bool(c.get("finite")), "single_chunk": bool(c.get("single_chunk")),
-                                "nonfinite": bool(c.get("nonfinite")), "attrs_family": int(c.get("attrs_family", 0))}]})
+                                "nonfinite": bool(c.get("nonfinite")), "attrs_family": int(c.get("attrs_family", 0)),
+                                "degen": c.get("degen"), "hw": c.get("hw")}]})
     return jobs
 
 
@@ -332,6 +343,10 @@ def replay_part(ctx, rng, focus):
         sel += [dict(c, single_chunk=True) for c in allcfgs if c["layout"] == "C" and c["backend"] == "dask"]
         # the non-finite value family (NaN, +inf, -inf in every raster input) for every function on the float C rasters
         sel += [dict(c, nonfinite=True) for c in allcfgs if c["layout"] == "C" and c["dtype"] in ("float32", "float64")]
+        # degenerate values and shapes for every function on the float C rasters of both backends
+        fc = [c for c in allcfgs if c["layout"] == "C" and c["dtype"] in ("float32", "float64")]
+        sel += [dict(c, degen=dg) for c in fc for dg in ("allnan", "const", "zero")]
+        sel += [dict(c, hw=hw_, finite=True) for c in fc for hw_ in ([1, 7], [6, 1], [2, 2], [1, 1], [3, 1])]
         # attrs families (`res` as tuple / scalar / list / 3-tuple / string / NumPy scalars) rotate over the dtypes
         dts = ["float64", "float32", "int32", "int8", "int16", "int64", "uint8", "uint16", "uint32", "uint64"]
         sel = [dict(c, attrs_family=(dts.index(c["dtype"]) + (3 if c.get("finite") else 0) + (1 if c.get("nonfinite") else 0)) % 6)
@@ -369,8 +384,8 @@ def replay_part(ctx, rng, focus):
                      "backend": c["backend"]}]})
     nvar = len(jobs) - ncfg
     # ---------------------------------------------------------------- T: call sequences generated by TLC
-    sjobs = session_jobs(ctx, ctx.pick(10, 400), ctx.pick(4, 6), rng, len(jobs))
-    sjobs += session_jobs(ctx, ctx.pick(8, 200), 3, rng, len(jobs) + len(sjobs), pipelines=True)
+    sjobs = session_jobs(ctx, ctx.pick(8, 400), ctx.pick(4, 6), rng, len(jobs))
+    sjobs += session_jobs(ctx, ctx.pick(6, 200), 3, rng, len(jobs) + len(sjobs), pipelines=True)
     if focus:
         sjobs = [j for j in sjobs if any(c["f"] in focus for c in j["calls"])][:12]
     jobs += sjobs
